@@ -172,7 +172,7 @@ def make_store_on(root, tree):
 
 def main(tier):
     rep = common.Report("C10", tier, "model_checking")
-    cases = fscen.CASES + fscen.THOROUGH_CASES + fscen.LONG_LIST_CASES + fscen.SHALLOW_CASES
+    cases = fscen.CASES + fscen.THOROUGH_CASES + fscen.LONG_LIST_CASES + fscen.SHALLOW_CASES + fscen.LISTING_CASES
     pts = states = 0
     per = {}
     classes = set()
